@@ -204,7 +204,7 @@ def crash_site(err, rc):
     """shape key of a sanitizer report: the innermost library function on the stack"""
     import re
     for l in err.split("\n"):
-        m = re.search(r"#\d+ 0x[0-9a-f]+ in (UTAP::[\w:~]+|[\w:~]+)[^/]*/repo/src/", l)
+        m = re.search(r"#\d+ 0x[0-9a-f]+ in (UTAP::[\w:~]+|[\w:~]+)[^/]*" + re.escape(core.REPO) + "/src/", l)
         if m:
             return m.group(1).replace("UTAP::", "")
     if rc == -999:
